@@ -53,6 +53,10 @@ def run_one(v, repo):
             if r.returncode == 0:
                 return v, "OK", "silent on behaviour-preserving twin"
             return v, "FAIL", "fired on twin (exit %d): %s" % (r.returncode, outp[-600:])
+        if v.get("kind") == "analysis-error":
+            if r.returncode == 2 and "ANALYSIS-ERROR" in outp:
+                return v, "OK", "declined (analysis error), as designed"
+            return v, "FAIL", "exit %d, expected ANALYSIS-ERROR; tail: %s" % (r.returncode, outp[-400:])
         if r.returncode == 1 and (not v.get("expect") or v["expect"] in outp):
             return v, "OK", "reported"
         return v, "FAIL", "exit %d, expected a VIOLATION mentioning %r; output tail: %s" % (
